@@ -15,14 +15,14 @@ var wagerKinds = map[string]string{"Fold": "fold", "Check": "check", "Call": "ca
 var wagerActs = map[string]bool{"fold": true, "check": true, "call": true, "allin": true, "bet": true, "raise": true, "pass": true}
 
 func seatOf(t *pt.Table, id string) int {
-	if i := t.FindPlayerIdx(id); i >= 0 {
+	if i := h.PlayerIdx(t, id); i >= 0 {
 		return t.State.PlayerStates[i].Seat
 	}
 	return -1
 }
 
 func bankOf(t *pt.Table, id string) (int64, bool) {
-	if i := t.FindPlayerIdx(id); i >= 0 {
+	if i := h.PlayerIdx(t, id); i >= 0 {
 		return t.State.PlayerStates[i].Bankroll, true
 	}
 	return 0, false
@@ -406,7 +406,7 @@ func init() {
 		Run: func(c *h.Ctx) {
 			po := PlayOpts{
 				Hands: 6 + c.R.Intn(8),
-				Churn: Churn{BetweenP: 0.55, MidP: 0.15, Rebuy: true, AddOn: true, BuyIn: true, Leave: true, MidTopup: true, MidJoin: true, MidLeaveOther: true, RandomSeat: true, ResumePaused: true, SitOut: true, Batch: true},
+				Churn: Churn{BetweenP: 0.55, MidP: 0.15, Rebuy: true, AddOn: true, BuyIn: true, Leave: true, MidTopup: true, MidJoin: true, MidLeaveOther: true, RandomSeat: true, ResumePaused: true, SitOut: true, Batch: true, OverlapOpen: 0.3},
 				Gen:   h.GenOpts{MinSeats: 3, MinPlayers: 3},
 			}
 			if c.R.Intn(4) == 0 {
@@ -434,9 +434,14 @@ func init() {
 						others = append(others, id)
 					}
 				}
-				if len(others) == 0 {
-					return true
+				// ... nor may anybody who has no entry in this hand act for one: a seated player who is not dealt in, a stranger
+				for _, ps := range t.State.PlayerStates {
+					if h.GameIdx(t, ps.PlayerID) < 0 {
+						others = append(others, ps.PlayerID)
+						break
+					}
 				}
+				others = append(others, "nobody-at-this-table")
 				who := others[p.R().Intn(len(others))]
 				act := []string{"fold", "call", "check", "allin"}[p.R().Intn(4)]
 				if err := h.DoAction(p.SS.S.TE, who, act, 0); err == nil {
